@@ -1052,6 +1052,29 @@ func (a *FA) BoundsAt(blk *ssa.BasicBlock, L Lin) Bounds {
 
 func (a *FA) boundsFrom(conds []Cond, L Lin) Bounds {
 	var bd Bounds
+	// L = +-atom + k: what is known about the atom alone (its intrinsic range, tests of it against constants) carries over
+	if len(L.T) == 1 {
+		for atom, cf := range L.T {
+			if (cf == 1 && L.K != 0) || cf == -1 {
+				sub := a.boundsFrom(conds, linAtom(atom))
+				if cf == 1 {
+					if sub.HasLo {
+						bd.lower(sub.Lo+L.K, "from the atom")
+					}
+					if sub.HasHi {
+						bd.upper(sub.Hi+L.K, "from the atom")
+					}
+				} else {
+					if sub.HasLo {
+						bd.upper(-sub.Lo+L.K, "from the atom")
+					}
+					if sub.HasHi {
+						bd.lower(-sub.Hi+L.K, "from the atom")
+					}
+				}
+			}
+		}
+	}
 	// what the value is by construction: a math/bits count lies in [0, width]; a length or capacity is >= 0
 	if v := a.AtomValueOfLin(L); v != nil {
 		if call, ok := v.(*ssa.Call); ok {
